@@ -3,7 +3,9 @@
 (* Reference model of a table that is large enough for its B-trees to have *)
 (* several leaves and an interior level (C10, C05 at scale):               *)
 (*                                                                         *)
-(*     w(id INT PRIMARY KEY, a INT, pad TEXT)   with an index on a         *)
+(*     w(id INT PRIMARY KEY, a INT, pad TEXT, c INT)  with an index on a   *)
+(*     (c = 100000 - id, never updated: a second, unique-valued key space  *)
+(*      whose index can only be created late, see WithDDL)                 *)
 (*                                                                         *)
 (* The small-domain model Relational.tla never puts more than three keys   *)
 (* into a leaf; leaf search, splits, emptied leaves and the rightmost-leaf *)
@@ -23,7 +25,7 @@ NoRow == -1
 
 VARIABLES a,        \* [Ids -> NoRow or the row's a value]
           txn,      \* <<>> or <<snapshot of a at BEGIN>> (one handle, no savepoints)
-          idx,      \* secondary indexes that exist: a subset of {"a", "pad"}
+          idx,      \* secondary indexes that exist: a subset of {"a", "pad", "c"}
           nops, hist
 vars == <<a, txn, idx, nops, hist>>
 view == <<a, txn, idx, nops>>
@@ -40,7 +42,10 @@ Probes == [count |-> Card(Present),
            min |-> IF Present = {} THEN NoRow ELSE CHOOSE i \in Present : \A j \in Present : i <= j,
            max |-> IF Present = {} THEN NoRow ELSE CHOOSE i \in Present : \A j \in Present : i >= j]
 
-Init == a = [i \in Ids |-> NoRow] /\ txn = <<>> /\ nops = 0 /\ hist = <<>> /\ idx = IF WithDDL THEN {} ELSE {"a"}
+\* with WithDDL the table already holds rows 1..600 (inserted in ascending order before the first step), so that every
+\* CREATE INDEX of a behaviour builds an index of several leaves from existing rows
+Prefilled == IF WithDDL THEN 600 ELSE 0
+Init == a = [i \in Ids |-> IF i <= Prefilled THEN i % 10 ELSE NoRow] /\ txn = <<>> /\ nops = 0 /\ hist = <<>> /\ idx = IF WithDDL THEN {} ELSE {"a"}
 
 ProbesOf(f) == [count |-> Card({i \in Ids : f[i] # NoRow}),
                 pts |-> [i \in ProbeIds \cap Ids |-> f[i]],
@@ -59,7 +64,7 @@ Step(op, n, newa) == StepT(op, n, newa, txn)
 
 Lens == {1, 7, 8, 9, 40, 100, 150}
 \* INSERT of the run lo..lo+len-1 (all absent), ascending / descending / interleaved order; a = id % 10
-InsertRunOf(LenSet) == \E lo \in {1, 2, 50, 64, 100, 129, 200, 250, 300, 350, 450}, len \in LenSet, ord \in {"asc", "desc", "evens_then_odds"} :
+InsertRunOf(LenSet) == \E lo \in {1, 2, 50, 64, 100, 129, 200, 250, 300, 350, 450, 601, 650, 800}, len \in LenSet, ord \in {"asc", "desc", "evens_then_odds"} :
                 LET run == lo..(lo + len - 1) IN
                 /\ run \subseteq Ids /\ \A i \in run : a[i] = NoRow
                 /\ Step([k |-> "insert_run", lo |-> lo, len |-> len, ord |-> ord], len, [i \in Ids |-> IF i \in run THEN i % 10 ELSE a[i]])
@@ -88,8 +93,8 @@ Rollback == txn # <<>> /\ StepT([k |-> "rollback"], 0, txn[1], <<>>)
 \* changes is the access path the implementation may take from then on - and the new index must hold every row
 CreateIndex(c) == WithDDL /\ txn = <<>> /\ c \notin idx /\ StepX([k |-> "create_index", col |-> c], 0, a, txn, idx \cup {c})
 DropIndex(c) == WithDDL /\ txn = <<>> /\ c \in idx /\ StepX([k |-> "drop_index", col |-> c], 0, a, txn, idx \ {c})
-DDL == \E c \in {"a", "pad"} : (\E w \in 1..(IF Card(Present) >= 100 THEN 60 ELSE 5) : CreateIndex(c)) \/ (\E w \in 1..10 : DropIndex(c))
-FillRun == WithDDL /\ InsertRunOf({300})
+DDL == \E c \in {"a", "pad", "c"} : (\E w \in 1..(IF Card(Present) >= 100 THEN 100 ELSE 5) : CreateIndex(c)) \/ (\E w \in 1..10 : DropIndex(c))
+FillRun == FALSE
 
 Next == DDL \/ FillRun \/ InsertRun \/ InsertRun \/ DeleteRange \/ DeleteEq \/ UpdateRange \/ (\E w \in 1..40 : Reopen)
         \/ (\E w \in 1..160 : Begin) \/ (\E w \in 1..40 : Commit) \/ (\E w \in 1..40 : Rollback) \/ InsertBigInTxn
